@@ -308,6 +308,102 @@ static std::string step(const Toks& t)
 		peer.join();
 		return hex(peer.got);
 	}
+	if (op == "hs" && t.size() == 2)
+	{
+		// server handshake for arbitrary request bytes
+		std::string req = unhex(t[1]);
+		int fd[2];
+		if (socketpair(AF_UNIX, SOCK_STREAM, 0, fd) != 0) return "err socketpair";
+		Peer peer(fd[1], req);
+		peer.start();
+		{
+			Srv srv;
+			static_cast<SocketServer&>(srv).serve(Socket(new Socket_(fd[0])));
+		}
+		peer.join();
+		return hex(peer.got);
+	}
+	if (op == "duplex" && t.size() == 7 && role(t[1], ic))
+	{
+		// one thread keeps calling receive() (the peer pings all the time), another one sends: what the peer reads
+		// must be whole frames — the data messages in order and one pong per ping in order
+		std::string st = unhex(t[2]);
+		int nmsg = (int)num(t[3]), size = (int)num(t[4]), seed = (int)num(t[5]), nping = (int)num(t[6]);
+		if (st.size() != 32 || nmsg < 1 || nmsg > 64 || size < 1 || size > (1 << 21) || nping < 0 || nping > 5000) return "bad-op";
+		int fd[2];
+		if (socketpair(AF_UNIX, SOCK_STREAM, 0, fd) != 0) return "err socketpair";
+		std::string verdict;
+		for (int attempt = 0; attempt < 3; attempt++) // the interleaving is a race: three rounds, any bad one is reported
+		{
+			if (attempt > 0 && socketpair(AF_UNIX, SOCK_STREAM, 0, fd) != 0) return "err socketpair";
+			verdict.clear();
+			WS ws(Socket(new Socket_(fd[0])), ic);
+			ws.setRng(st);
+			std::thread reader([&]() { for (int k = 0; k < 100000 && !ws.closed(); k++) ws.receive(); });
+			std::thread sender([&]() {
+				for (int i = 0; i < nmsg; i++) {
+					std::string pl((size_t)size, 0);
+					for (int j = 0; j < size; j++) pl[(size_t)j] = (char)((seed + i * 31 + j) % 251);
+					Exact d(pl);
+					ws.send((const byte*)d.p, (int)d.n, WebSocket::FRAME_BINARY);
+				}
+			});
+			// the peer: raw socket, own frame parser
+			fcntl(fd[1], F_SETFL, fcntl(fd[1], F_GETFL) | O_NONBLOCK);
+			std::string in;
+			size_t pos = 0, seen = 0;
+			unsigned long long total = (unsigned long long)nmsg * (unsigned long long)(size + 10);
+			int msgs = 0, pongs = 0, pings = 0;
+			std::string dataDesc, pongBytes;
+			char buf[65536];
+			for (int spins = 0; verdict.empty() && (msgs < nmsg || pongs < nping); )
+			{
+				// pings spread over the whole transfer
+				while (pings < nping && seen >= (unsigned long long)(pings + 1) * total / (unsigned long long)(nping + 1)) {
+					unsigned char p[6] = { 0x89, 0x04, 'p', (unsigned char)pings, (unsigned char)(pings >> 8), 'g' };
+					if (::send(fd[1], p, 6, MSG_NOSIGNAL) != 6) break; // retried on the next round
+					pings++;
+				}
+				struct pollfd pf; pf.fd = fd[1]; pf.events = POLLIN; pf.revents = 0;
+				int pr = poll(&pf, 1, 100);
+				if (pr == 0) { if (++spins > 200) verdict = "timeout msgs=" + str(msgs) + " pongs=" + str(pongs); continue; }
+				ssize_t n = ::read(fd[1], buf, sizeof buf);
+				if (n == 0) { verdict = "closed-early msgs=" + str(msgs) + " pongs=" + str(pongs); break; }
+				if (n < 0) continue;
+				spins = 0;
+				in.append(buf, (size_t)n);
+				seen += (size_t)n;
+				for (;;) // complete frames
+				{
+					size_t av = in.size() - pos;
+					if (av < 2) break;
+					unsigned char b0 = (unsigned char)in[pos], b1 = (unsigned char)in[pos + 1];
+					unsigned long long len = b1 & 127; size_t h = 2;
+					if (len == 126) { if (av < 4) break; len = ((unsigned char)in[pos + 2] << 8) | (unsigned char)in[pos + 3]; h = 4; }
+					else if (len == 127) { if (av < 10) break; len = 0; for (int i = 2; i < 10; i++) len = (len << 8) | (unsigned char)in[pos + i]; h = 10; }
+					bool masked = (b1 & 0x80) != 0;
+					if (masked != ic) { verdict = "corrupt: mask bit of frame " + str(b0) + " after " + str(msgs) + " messages, " + str(pongs) + " pongs"; break; }
+					if (masked) h += 4;
+					if ((b0 != 0x82 && b0 != 0x8a) || len > (unsigned long long)size + 4 || (b0 == 0x82 && len != (unsigned long long)size) || (b0 == 0x8a && len != 4))
+					{ verdict = "corrupt: frame " + str(b0) + " len " + str((long long)len) + " after " + str(msgs) + " messages, " + str(pongs) + " pongs"; break; }
+					if (av < h + len) break;
+					std::string pl = in.substr(pos + h, (size_t)len);
+					if (masked) for (size_t i = 0; i < pl.size(); i++) pl[i] = (char)(pl[i] ^ in[pos + h - 4 + (i & 3)]);
+					if (b0 == 0x82) { dataDesc += (msgs ? "," : "") + str((long long)len) + ":" + showBytes(pl); msgs++; }
+					else { pongBytes += pl; pongs++; }
+					pos += h + (size_t)len;
+					if (pos > (1u << 22)) { in.erase(0, pos); pos = 0; }
+				}
+			}
+			if (verdict.empty())
+				verdict = "data=" + str(msgs) + " " + dataDesc + " pongs=" + str(pongs) + ":" + showBytes(pongBytes);
+			::close(fd[1]);
+			sender.join();
+			reader.join();
+			if (verdict.compare(0, 5, "data=") != 0) break;
+		}
+		return verdict;
+	}
 	if (op == "bigsum" && t.size() == 3)
 	{
 		// fragments of one binary message, each `len` bytes of 'a', generated here (too long for the line protocol):
